@@ -489,8 +489,91 @@ def compare(ctx, case, o1, o2, names, label, w, by_sid=False):
     return n
 
 
+def rearing_clone_case(rng):
+    """a clone that rears (and razes) helpers of its own, hosted by a frame that the main framer leaves and re-enters
+    several times: every entry is a repetition under the same inputs, so the clone and what it rears must produce the
+    same sequence of events in every cycle (and the run must not die)"""
+    W, Pz, K = rng.randint(3, 5), rng.randint(1, 3), rng.randint(1, 2)
+    cycles = rng.randint(3, 5)
+    layers = rng.choice([1, 1, 2])             # crew directly under main, or inside another clone
+    as1 = rng.choice(["mine", "c1"])
+    as2 = rng.choice(["mine", "k2"])
+    rctx = rng.choice(["enter", "enter", "exit", "recur"])
+    raze = rng.choice(["all", "last", "first", None, "all"])
+    rzctx = rng.choice(["exit", "enter"])
+    L = ["house h", "  framer drv be active in front", "    frame d0", "      repeat %d" % (cycles * (W + Pz) + 2),
+         "    frame dfin", "      bid stop all",
+         "  framer main be active", "    frame work", '      do vf rec with tag "main.work.enter" at enter',
+         "      aux %s as %s" % ("squad" if layers == 2 else "crew", as1), "      go pause if recurred >= %d" % W,
+         "    frame pause", '      do vf rec with tag "main.pause.enter" at enter', "      go work if recurred >= %d" % Pz]
+    if layers == 2:
+        L += ["  framer squad be moot", "    frame s0", '      do vf rec with tag "squad.s0.enter" at enter',
+              '      do vf rec with tag "squad.s0.recur" at recur', "      aux crew as %s" % as2]
+    L += ["  framer crew be moot", "    frame a", '      do vf rec with tag "crew.a.enter" at enter',
+          '      do vf rec with tag "crew.a.exit" at exit']
+    if rctx == "recur":
+        L += ["      go b if recurred >= %d" % K, "      recur", "      rear helper as mine be aux in frame b"]
+    else:
+        L += ["      %s" % rctx, "      rear helper %sin frame b" % rng.choice(["as mine be aux ", "as mine ", "be aux ", ""]),
+              "      go b if recurred >= %d" % K]
+    L += ["    frame b", '      do vf rec with tag "crew.b.enter" at enter', '      do vf rec with tag "crew.b.recur" at recur']
+    if raze:
+        L += ["      %s" % rzctx, "      raze %s%s" % (raze, rng.choice(["", " in frame me", " in frame b"]))]
+    if rng.random() < 0.5:
+        L += ["      go a if recurred >= %d" % (K + 1)]
+    L += ["  framer helper be moot", "    frame h0", '      do vf rec with tag "helper.h0.enter" at enter',
+          '      do vf rec with tag "helper.h0.recur" at recur', '      do vf rec with tag "helper.h0.exit" at exit']
+    return {"text": "\n".join(L) + "\n", "period": W + Pz, "cycles": cycles, "raze": raze, "rear_ctx": rctx, "layers": layers,
+            "ticks": cycles * (W + Pz) + 8}
+
+
+def rearing_clone_check(ctx, rng):
+    from vf.flo import runner
+    case = rearing_clone_case(rng)
+    text = case["text"]
+    res = runner.run_text(text, maxticks=case["ticks"])
+    w = lambda **kw: dict({"program": text, "case": {k: v for k, v in case.items() if k != "text"}}, **kw)
+    if not res.built:
+        ctx.inconclusive_case("rearing-clone program did not build: %s\n%s" % (res.build_msgs[-1:], text))
+        return
+    ctx.hit("rearing_clone_cases")
+    if res.exc is not None:
+        exc = res.exc
+        seen = 0
+        while exc.__context__ is not None and seen < 10:
+            exc = exc.__context__
+            seen += 1
+        ctx.fail("rearing-clone/run-raised/" + exc_sig(exc), "a clone that rears helpers on every entry: the run raised %s: %s" % (
+            type(exc).__name__, "".join(map(str, exc.args))[:160]), w())
+        ctx.case(text, nontrivial=True)
+        return
+    # cycles: from one `main.work.enter` to the next; events of everything but the driver and main, by tag and tick offset
+    starts = [e["tick"] for e in res.trace if e["tag"] == "main.work.enter"]
+    cyc = []
+    for a, b in zip(starts, starts[1:]):
+        cyc.append([(e["tick"] - a, e["tag"], e["ctx"]) for e in res.trace if a <= e["tick"] < b and e["framer"] not in ("main", "drv")
+                    and not (e["tick"] == b)])
+    ctx.event(len(res.trace))
+    full = cyc[:-1] if len(cyc) > 1 else cyc       # (the last interval may be cut by the end of the run)
+    ctx.hit("rearing_clone_cycles", len(full))
+    reared = sum(1 for c in full for ev in c if ev[1] == "helper.h0.enter")
+    ctx.hit("helpers_entered_in_cycles", reared)
+    # the helper population may differ from cycle to cycle (helpers accumulate without a raze; a rear in exit context also
+    # runs when the host is left, after the last raze): the clone's own events must agree, the helpers' are set aside
+    strip = lambda c: [ev for ev in c if not ev[1].startswith("helper.")]
+    base = strip(full[0]) if full else None
+    for i, c in enumerate(full[1:], 1):
+        if not ctx.check(strip(c) == base, "rearing-clone/entry-differs-from-first-entry",
+                         "entry #%d of the clone's host frame produced another event sequence than entry #0 under the same inputs" % i,
+                         lambda i=i, c=c: w(entry=i, first=base[:40], this=strip(c)[:40])):
+            break
+    ctx.case(text, nontrivial=len(full) >= 2 and reared >= 1)
+
+
 def worker(ctx, job):
     from vf.flo import clones as C
+    for seed in job.get("rearing", []):
+        rearing_clone_check(ctx, random.Random(seed))
     for seed in job["seeds"]:
         rng = random.Random(seed)
         case = C.gen_case(rng, job.get("opt"))
@@ -509,7 +592,10 @@ def run(ctx):
     n = ctx.pick(200, 3600)
     seeds = [ctx.rng.randrange(1 << 30) for _ in range(n)]
     k = 14
-    ctx.shard([{"seeds": seeds[i::k]} for i in range(k)], timeout=ctx.pick(200, 900), procs=k)
+    rearing = [ctx.rng.randrange(1 << 30) for _ in range(ctx.pick(160, 2400))]
+    ctx.shard([{"seeds": seeds[i::k], "rearing": rearing[i::k]} for i in range(k)], timeout=ctx.pick(200, 900), procs=k)
+    ctx.floor("rearing_clone_cycles", ctx.pick(200, 3000))
+    ctx.floor("helpers_entered_in_cycles", ctx.pick(100, 1500))
     scale = ctx.pick(1, 12)         # thorough runs 18 times the quick number of cases
     for name, v in FLOORS.items():
         ctx.floor(name, v * scale)
